@@ -105,6 +105,8 @@ Objs == GenObjs \cup NucObjs \cup ProtObjs
 KmerGeoms == IF Rich THEN {<<2, 2>>, <<3, 2>>, <<4, 2>>, <<2, 3>>, <<3, 3>>, <<4, 3>>, <<2, 4>>}
                      ELSE {<<2, 2>>, <<4, 2>>, <<3, 3>>, <<4, 3>>}
 
+BigSizes == {255, 256, 257, 65535, 65536, 65537}
+
 (* ---------------------------------------------------------------- two-level generation *)
 Root(fam, kind, alph, codes, a) == [fam |-> fam, kind |-> kind, alph |-> alph, codes |-> codes,
                                     op |-> "init", a |-> a]
@@ -117,6 +119,7 @@ Init ==
      \/ \E g \in KmerGeoms : c = Root("kmer", "none", <<>>, <<>>, g)
      \/ \E o \in Objs : c = Root("obj", o.kind, o.alph, o.codes, <<>>)
      \/ c = Root("tables", "none", <<>>, <<>>, <<>>)
+     \/ \E n \in BigSizes : c = Root("big", "none", <<>>, <<>>, <<n>>)
   /\ r = Res(S0, "ok", IF c.fam = "tables" THEN [tables |-> Tables, starts |-> StartSets] ELSE <<>>)
 
 CallsOf(cc) ==
@@ -125,6 +128,11 @@ CallsOf(cc) ==
     [] cc.fam = "kmer" -> CallsKmer(cc.a[1], cc.a[2])
     [] cc.fam = "obj"  -> CallsObj(S0)
     [] cc.fam = "tables" -> {<<"table", <<t, st>>>> : t \in TableIds, st \in StartIds}
+    \* alphabets whose size sits on the limits of the code widths (uint8 / uint16): the last
+    \* symbols, and the first value that is not a symbol
+    [] cc.fam = "big" ->
+         LET n == cc.a[1]  vals == {0, n - 2, n - 1, n} IN
+         {<<"big_seq", <<n, <<x>>>>>> : x \in vals} \cup {<<"big_seq", <<n, <<x, y>>>>>> : x \in vals, y \in {0, n - 1}}
 
 \* table / start-set names -> values
 Resolved(op, a) ==
